@@ -603,6 +603,12 @@ def option_rewrites(orig, kind, expect_kid, expect_ctx, rng):
         out.append(("ctx-added-wrong", b(ctx=(expect_ctx or b"")[:200] + b"\x07")))
         out.append(("ctx-flag-without-length", bytes([(orig[0] if orig else 0) | 0x10]) +
                     (orig[1:1 + (len(piv) if piv else 0)] if orig else b"")))
+    # bytes that belong to no announced field (RFC 8613 §6.1 leaves no room for them): behind the last field of
+    # the option, as a flags byte without flags in front of nothing / of junk
+    out.append(("bytes-appended", orig + b"\xaa"))
+    out.append(("bytes-appended", orig + bytes([rng.randrange(256), rng.randrange(256)])))
+    out.append(("zero-byte-appended", orig + b"\x00"))
+    out.append(("option-00", b"\x00"))
     out.append(("lone-h-flag", b"\x10"))
     out.append(("group-flag", bytes([(orig[0] if orig else 0) | 0x20]) + orig[1:]))
     out.append(("reserved-bit-6", bytes([(orig[0] if orig else 0) | 0x40]) + orig[1:]))
@@ -661,6 +667,11 @@ def manipulations(k, scn, kind, j, wire, rid, opt_value, payload, expect_kid, ex
     else:
         ms.append({"kind": "code", "code": 5 if wire[1] == 2 else 2})
         ms.append({"kind": "code", "code": 1})
+    # every single-bit change of the outer code byte (the code travels unprotected: POST -> PUT / 2.02 / 0.00,
+    # 2.04 -> 0.04 / 2.06 / 6.04, ...) and the other classes
+    for c in sorted({wire[1] ^ (1 << b) for b in range(8)} | {0, 31, 32, 64, 191, 192, 255}):
+        if c != wire[1] and {"kind": "code", "code": c} not in ms:
+            ms.append({"kind": "code", "code": c})
     ms.append({"kind": "outeropt", "n": 3, "v": hx(b"other.example")})
     for m in ms:
         m.update({"on": kind, "j": j})
@@ -716,19 +727,19 @@ def apply_manip(k, scn, art, m, sink, base_case):
                                           rid.code_style.request)
         w = wire
     elif t == "code":
-        w = rewire(k, wire, code=m["code"])
+        w = wire[:1] + bytes([m["code"]]) + wire[2:]       # the code byte of the datagram itself
     elif t == "outeropt":
         w = rewire(k, wire, extra_opts=[(m["n"], unhx(m["v"]))])
     else:
         raise HarnessError(f"unknown manipulation {t}")
     out, line, _, _ = do_unprotect(k, ctx, rid, w)
     what = f"{kind}[{m['j']}] {t} {m.get('label', '')}".strip()
-    if t == "code" and m["code"] not in (2, 5, 68, 69):
-        # the outer code is class U and not among the fields the property lists; only the
-        # correspondence is checked (and that no message comes out)
-        verdict = f"{what}: message accepted with outer code {m['code']}" if out.startswith("ok") else ""
-    else:
-        verdict = judge(out, must_fail, base_out, what)
+    if t == "code" and kind == "req" and m["code"] not in (2, 5):
+        # a request whose outer code is not one of the fixed outer codes is not a protected request
+        must_fail = f"outer code {m['code']} of a request is neither POST nor FETCH"
+    # (any other change of the unauthenticated outer code: refused with a protection error, or - RFC 8613 lets the
+    # recipient ignore the outer code - accepted with exactly the original message; never another exception)
+    verdict = judge(out, must_fail, base_out, what)
     tag = "manip:" + t + (":must-fail" if must_fail else ":representation")
     case = dict(base_case)
     case["manip"] = m
@@ -1070,6 +1081,43 @@ def make_twin(gen, scn):
 
 # --------------------------------------------------------------------------- helper-level lines
 
+def judge_z(oscore, v):
+    """`_uncompress(v)` against the RFC 8613 §6.1 / §5 reader of the oracle: (canonical output, verdict, key)"""
+    try:
+        _, _, u, _ = oscore.CanUnprotect._uncompress(v, b"")
+    except oscore.ProtectionInvalid as e:
+        if rfc_parse_option(v) is not None:
+            return err_name(e), f"_uncompress rejected well-formed option {v.hex()}", "uncompress:rejects-valid"
+        return err_name(e), "", ""
+    except Exception as e:
+        return err_name(e), f"_uncompress({v.hex()}) raised {type(e).__name__} instead of a protection error", \
+            "uncompress:" + type(e).__name__
+    piv = u.get(oscore.COSE_PIV)
+    kid = u.get(oscore.COSE_KID)
+    ctx = u.get(oscore.COSE_KID_CONTEXT)
+    grp = 1 if oscore.COSE_COUNTERSIGNATURE0 in u else 0
+    try:
+        back = hx(oscore.CanProtect._compress({}, dict(u), b"")[0])
+    except ValueError:
+        back = "~"
+
+    def s(x):
+        return "~" if x is None else hx(x)
+    out = f"{s(piv)} {s(kid)} {s(ctx)} {grp} {back}"
+    p = rfc_parse_option(v)
+    if p is None:
+        # bytes behind the announced fields, a flags byte without flags, a Partial IV with leading zeros, ...: an
+        # option value that is not the encoding of the fields read from it - a changed option that is not noticed
+        return out, f"_uncompress accepted the malformed option {v.hex()} as {out}", "uncompress:accepts-malformed"
+    if (p["piv"], p["kid"], p["ctx"], p["group"]) != (piv, kid, ctx, bool(grp)):
+        return out, f"_uncompress({v.hex()}) = {out}, RFC reader: {p}", "uncompress:differs-from-rfc"
+    if back not in ("~", hx(v)):
+        return out, f"_uncompress({v.hex()}) = {out}, which _compress encodes as {back}: two option values, one header", \
+            "uncompress:not-injective"
+    return out, "", ""
+
+
+
 def helper_lines(k, env, rep):
     rng = env.rng
     oscore = k.oscore
@@ -1109,7 +1157,10 @@ def helper_lines(k, env, rep):
              b"\x19\x05\x01\xaa", b"\x19\x05\x01\xaa\xbb", b"\x06" + b"\0" * 6, b"\x07" + b"\0" * 7,
              b"\x05\x01\x02\x03\x04", b"\x05\x01\x02\x03\x04\x05", b"\x20", b"\x40", b"\x80",
              b"\x18\x00", b"\x18\x01", b"\x10\xff" + b"a" * 254, b"\x10\xff" + b"a" * 255,
-             b"\x1d" + b"\x01" * 5 + b"\x02ab" + b"kid", b"\x0e" + b"\0" * 6 + b"k"]
+             b"\x1d" + b"\x01" * 5 + b"\x02ab" + b"kid", b"\x0e" + b"\0" * 6 + b"k",
+             # bytes behind the announced fields / flags byte without flags / Partial IV not in its shortest form
+             b"\x01\x05\xaa", b"\x00\xaa\xbb", b"\x02\x00\x05", b"\x01\x00", b"\x02\x00\x00", b"\x05\x00\x01\x02\x03\x04",
+             b"\x0a\x00\x05\x01", b"\x11\x05\x01\x37\xaa", b"\x10\x00\xaa", b"\x20\xaa", b"\x21\x05\xaa", b"\x19\x05\x01\x37"]
     zvals = [unhx(c["z"]) for _, c in load_corpus("C11") if "z" in c] + zvals
     for fb in range(256):
         zvals.append(bytes([fb]))
@@ -1127,38 +1178,11 @@ def helper_lines(k, env, rep):
             v = bytes([rng.randrange(64)]) + bytes(rng.randrange(256) for _ in range(rng.randrange(0, 12)))
         zvals.append(v)
     for v in (zvals if z_ok else []):
-        try:
-            _, _, u, _ = oscore.CanUnprotect._uncompress(v, b"")
-            piv = u.get(oscore.COSE_PIV)
-            kid = u.get(oscore.COSE_KID)
-            ctx = u.get(oscore.COSE_KID_CONTEXT)
-            grp = 1 if oscore.COSE_COUNTERSIGNATURE0 in u else 0
-            try:
-                back = hx(oscore.CanProtect._compress({}, dict(u), b"")[0])
-            except ValueError:
-                back = "~"
-
-            def s(x):
-                return "~" if x is None else hx(x)
-            out = f"{s(piv)} {s(kid)} {s(ctx)} {grp} {back}"
-            # oracle: agrees with the RFC reader
-            p = rfc_parse_option(v)
-            if p is None or (p["piv"], p["kid"], p["ctx"], p["group"]) != (piv, kid, ctx, bool(grp)):
-                # trailing bytes after a k-less option are ignored by the implementation; the RFC
-                # reader does the same, so any difference is a finding
-                rep.oracle_fail({"z": hx(v)}, f"_uncompress({v.hex()}) = {out}, RFC reader: {p}",
-                                key="uncompress:differs-from-rfc")
-        except oscore.ProtectionInvalid as e:
-            out = err_name(e)
-            if rfc_parse_option(v) is not None:
-                rep.oracle_fail({"z": hx(v)}, f"_uncompress rejected well-formed option {v.hex()}",
-                                key="uncompress:rejects-valid")
-        except Exception as e:
-            out = err_name(e)
-            rep.oracle_fail({"z": hx(v)},
-                            f"_uncompress({v.hex()}) raised {type(e).__name__} instead of a protection error",
-                            key="uncompress:" + type(e).__name__)
+        out, verdict, key = judge_z(oscore, v)
+        if verdict:
+            rep.oracle_fail({"z": hx(v)}, verdict, key=key)
         add({"z": hx(v)}, f"C11 Z {hx(v)}", out, "helper:Z")
+        rep.count("Z:" + ("ok" if not out.startswith("err") else out))
 
     # N: _construct_nonce
     for ivb in ((7, 12, 13) if n_ok else ()):
@@ -1461,14 +1485,7 @@ def replay(env, case):
         rfc_vectors(k, env, r)
         return r.oracle_failures[0]["verdict"] if r.oracle_failures else ""
     if "z" in case:
-        v = unhx(case["z"])
-        try:
-            oscore.CanUnprotect._uncompress(v, b"")
-        except oscore.ProtectionInvalid:
-            return ""
-        except Exception as e:
-            return f"_uncompress({v.hex()}) raised {type(e).__name__} instead of a protection error"
-        return ""
+        return judge_z(oscore, unhx(case["z"]))[1]
     scn = case["scn"]
     sink = Sink(None)
     if "session" in case:
